@@ -398,3 +398,26 @@ def m_attack(ins, len_a, len_d):
     yield None
   for v in i:
     yield None
+
+
+def m_resample_tv(ins, new, order):
+  """ resample with a time-varying ``old`` (a Stream): one step item per
+  output sample, and the same documented look-ahead on the signal. """
+  sig, steps = iter(ins[0]), iter(ins[1])
+  threshold = Fraction(order + 1, 2)
+  first = int(threshold) + 1 if threshold % 1 == Fraction(1, 2) \
+    else int(threshold)
+  for _ in range(first):
+    if nxt(sig) is END:
+      break
+  idx = Fraction(int(threshold))
+  while True:
+    yield None
+    st = nxt(steps)
+    if st is END:
+      return
+    idx += Fraction(st) / Fraction(new)
+    while idx > threshold:
+      if nxt(sig) is END:
+        return
+      idx -= 1
